@@ -93,6 +93,30 @@ KW_NAMES = ["a", "b", "x", "key", "self", "_self", "args", "kwargs", "kw_1", "",
 MAX_INVOCATIONS = 120
 
 
+def proxy_parameter_names():
+    """the names of the NAMED parameters of the functions `netref._make_method` makes (`__call__` and an ordinary method),
+    read off their signatures: a keyword argument is captured by the proxy's own function exactly when it has one of
+    these names, so whatever the made methods call their parameters is tried as a keyword of the target"""
+    import inspect
+    try:
+        from rpyc.core import netref
+        out = []
+        for made in ("__call__", "observed_method_name"):
+            fn = netref._make_method(made, "doc")
+            while fn is not None:
+                for prm in inspect.signature(fn, follow_wrapped=False).parameters.values():
+                    if prm.kind in (prm.POSITIONAL_OR_KEYWORD, prm.KEYWORD_ONLY) and prm.name not in out:
+                        out.append(prm.name)
+                fn = getattr(fn, "__wrapped__", None)
+        return out
+    except Exception:  # noqa  (no such function any more: nothing to add)
+        return []
+
+
+def kw_names():
+    return KW_NAMES + [n for n in proxy_parameter_names() if n not in KW_NAMES]
+
+
 # ---- "everything else": objects that are NOT exact instances of brine's types and therefore travel by reference
 class Point(collections.namedtuple("Point", "probe y")):
     """a namedtuple (tuple subclass with field names)"""
@@ -893,7 +917,7 @@ class ProgGen(object):
         r = self.r
         kws = []
         for _ in range(r.below(3)):
-            n = r.choice(KW_NAMES) if r.chance(4, 5) else c04.gen_text(r, r.below(4))
+            n = r.choice(kw_names()) if r.chance(4, 5) else c04.gen_text(r, r.below(4))
             if n not in kws:
                 kws.append(n)
         return dict(npos=r.below(4), kws=kws, cb=None)
@@ -1135,6 +1159,11 @@ def boundary_programs():
     out.append(dict(fns=fns, data=["A:list"], entry=dict(callee=R_("A", 0), args=[], kwargs=[])))
     fns = [dict(owner="B", body=[("ret", ("t", [("k", "_self")]))])]
     out.append(dict(fns=fns, data=[], entry=dict(callee=R_("B", 0), args=[], kwargs=[("_self", 7)])))
+    # ... and whatever the made methods call their own named parameters in this tree (read off their signatures)
+    for nm in proxy_parameter_names():
+        fns = [dict(owner="A", body=[("call", 0, V(R_("B", 1)), [V(0)], [(nm, V(1))]), ("ret", ("v", 0))]),
+               dict(owner="B", body=[("ret", ("t", [("k", nm), ("a", 0)]))])]
+        out.append(dict(fns=fns, data=[], entry=dict(callee=R_("A", 0), args=[], kwargs=[])))
     # two different classes with the same module and name but different special methods, proxied one after the other
     for first, second in (("shape-call", "shape-seq"), ("shape-seq", "shape-call")):
         fns = [dict(owner="B", body=[("call", 0, V(R_("A", 1)), [("a", 0)], []), ("call", 1, V(R_("A", 1)), [("a", 1)], []), ("ret", ("t", [("v", 0), ("v", 1)]))]),
